@@ -25,7 +25,7 @@ def make_case(rng, cid, prec, quick):
     ncomp = 2 if prec in "cz" else 1
     rnd = c01.f32 if prec in "sc" else (lambda v: v)
     n = rng.randint(2, 30 if quick else 80)
-    kind = rng.choice(["diagdom", "diagdom", "grid", "symdom", "rowdom", "rowdom"])
+    kind = rng.choice(["diagdom", "diagdom", "grid", "symdom", "rowdom", "rowdom"] if prec == "d" else ["diagdom", "grid", "symdom", "rowdom", "rowdom", "rowdom"])
     if kind == "rowdom":
         # strictly ROW diagonally dominant, rows scaled by powers of two <= 1: the diagonal stays nonzero during elimination
         # (row dominance is inherited by the Schur complement) but is NOT the largest entry of its column and is below 1 in
@@ -220,7 +220,7 @@ def run(ctx):
                        "symmetric pattern, 2-D grid), s/d/c/z, nprocs 1..8, panel/relax/maxsuper/blocking sweeps (relax<=maxsuper), "
                        "seeded perturbation; non-trivial = n>=3; distinct by matrix+parameters")
     ctx.coq_properties()
-    N = {"d": 60, "s": 16, "z": 16, "c": 12} if ctx.quick() else {"d": 800, "s": 200, "z": 200, "c": 200}
+    N = {"d": 60, "s": 18, "z": 20, "c": 16} if ctx.quick() else {"d": 800, "s": 200, "z": 200, "c": 200}
     sdrv = ctx.ocaml_model("symfill")
     nok = 0; ntie = 0; ntie1 = 0; nstale = 0; nmap = 0
     adrv = ctx.ocaml_model("alloc")
